@@ -117,6 +117,7 @@ class Program:
         s._cg = None
         s.aliases = []
         s.inlined = []
+        s.inlined_into = {}
 
     def body(s, fn):
         return s.bodies.get(fn)
